@@ -649,8 +649,17 @@ func parseSpecFile(path string) (*SpecFile, error) {
 			cur.MapAccess = append(cur.MapAccess, cl)
 		case "forbid":
 			// forbid PREFIX [except a, b, c]
-			f := strings.SplitN(c.rest, " except ", 2)
-			fr := ForbidRule{Prefix: strings.TrimSpace(f[0])}
+			// forbid [C12 C11] PREFIX ... : the rule's obligations belong to these properties only
+			rest := strings.TrimSpace(c.rest)
+			var fprops []string
+			if strings.HasPrefix(rest, "[") {
+				if k := strings.Index(rest, "]"); k > 0 {
+					fprops = strings.Fields(strings.ReplaceAll(rest[1:k], ",", " "))
+					rest = strings.TrimSpace(rest[k+1:])
+				}
+			}
+			f := strings.SplitN(rest, " except ", 2)
+			fr := ForbidRule{Prefix: strings.TrimSpace(f[0]), Props: fprops}
 			if len(f) == 2 {
 				for _, x := range strings.Split(f[1], ",") {
 					fr.Except = append(fr.Except, strings.TrimSpace(x))
